@@ -73,6 +73,11 @@ struct Slot {
     done: bool,
     kill_pending: bool,
     skew_ms: i64,
+    /// Every poll of this task gets a waker of its own, and only the waker of the most recent
+    /// poll schedules the task (what `Future::poll` promises, and what happens to a future that
+    /// is polled by hand or under a combinator first and handed to another task later). Wakes
+    /// through an older waker go nowhere.
+    churn: bool,
     /// Background tasks (peers, chaos) never count as "work the run is waiting for".
     pub essential: bool,
 }
@@ -337,10 +342,16 @@ impl Sim {
             done: false,
             kill_pending: false,
             skew_ms,
+            churn: false,
             essential,
         });
         self.names.borrow_mut().push(name.to_string());
         tasks.len() - 1
+    }
+
+    /// From now on every poll of the task hands it a fresh waker; older ones are dead.
+    pub fn set_waker_churn(&self, id: TaskId, on: bool) {
+        self.tasks.borrow_mut()[id].churn = on;
     }
 
     pub fn is_done(&self, id: TaskId) -> bool {
@@ -428,6 +439,12 @@ impl Sim {
         let (mut fut, waker, skew) = {
             let mut tasks = self.tasks.borrow_mut();
             let s = &mut tasks[id];
+            if s.churn {
+                // wakes that arrive through the previous waker while this poll runs are lost,
+                // exactly as they would be for a future that moved to another task
+                s.wake = Arc::new(TaskWake { flag: AtomicBool::new(false), root: self.root.clone() });
+                s.waker = Waker::from(s.wake.clone());
+            }
             s.wake.flag.store(false, Ordering::SeqCst);
             s.polling = true;
             (s.fut.take().unwrap(), s.waker.clone(), s.skew_ms)
